@@ -1,5 +1,6 @@
 """C07 - a process sees exactly its declared variables, always from the current
 hierarchy (also after structural updates)."""
+from vivarium.core.engine import Engine
 from vivarium.core.process import Process, Step
 
 from vsym.core import AND, OR, NOT, EQ, is_sym, PathControl
@@ -19,11 +20,13 @@ CLAIMS = {
 }
 GOALS = {'quick': ['view after add', 'view after delete', 'view after divide',
                    'view after move', 'observer below the root',
-                   'step observer after a step issued a structural update'],
+                   'step observer after a step issued a structural update',
+                   'fixed port on a store replaced within one batch'],
          'thorough': ['view after add', 'view after delete',
                       'view after divide', 'view after move',
                       'observer below the root',
-                      'step observer after a step issued a structural update']}
+                      'step observer after a step issued a structural update',
+                      'fixed port on a store replaced within one batch']}
 STUBS = ['observer process: glob port declaring only s.x of each agent, a dict '
          'port on a store that holds an extra undeclared variable, a scalar '
          'port, an output-only port; it compares its states with the harness\'s '
@@ -142,9 +145,94 @@ class Tot(Process):
         return {'g': {'other': 1}, 'one': CTX['done']}
 
 
+class FixedObs(Process):
+    """no glob port: one fixed port wired into a compartment's store"""
+
+    def ports_schema(self):
+        return {'spot': {'x': {'_default': 0}}}
+
+    def calculate_timestep(self, states):
+        self.check(states, 'calculate_timestep')
+        return 1
+
+    def update_condition(self, timestep, states):
+        self.check(states, 'update_condition')
+        return True
+
+    def next_update(self, timestep, states):
+        self.check(states, 'next_update')
+        return {'spot': {'x': CTX['d']}}
+
+    def check(self, st, where):
+        e = CTX.get('engine')
+        if e is None:
+            return
+        ctx = CTX['ctx']
+        cur = get(e.state.get_value(), ('loc1', 'a1', 's', 'x'), None)
+        ok = isinstance(st, dict) and set(st) == {'spot'} and \
+            set(st['spot']) == {'x'}
+        info = lambda: dict(where=where, states=st, hierarchy=cur,
+                            replaced=CTX.get('replaced'))
+        ctx.claim('C07.shape', ok, sig='shape-fixed-port@' + where, info=info)
+        if ok:
+            ctx.claim('C07.values', EQ(st['spot']['x'], cur),
+                      sig='values-replaced-store@' + where, info=info)
+            ctx.observe('x', st['spot']['x'])
+        if CTX.get('replaced'):
+            ctx.goal('fixed port on a store replaced within one batch')
+
+
+class Swap(Process):
+    """role 'delete': removes a1; role 'add': adds a1 again with a new state.
+    Both act at their k-th update, in the same batch (equal timesteps)."""
+
+    def ports_schema(self):
+        return {'loc1': {'*': {'s': {'x': {'_default': 0}}}}}
+
+    def calculate_timestep(self, states):
+        return CTX['ts_swap']
+
+    def next_update(self, timestep, states):
+        self.n = getattr(self, 'n', 0) + 1
+        if self.n != CTX['swap_at']:
+            return {}
+        if self.parameters['role'] == 'delete':
+            return {'loc1': {'_delete': ['a1']}}
+        CTX['replaced'] = True
+        return {'loc1': {'_add': [{'key': 'a1',
+                                   'state': {'s': {'x': CTX['v1']}}}]}}
+
+
+def part_replace(ctx, cfg):
+    """A store a fixed (non-glob) port is wired to is deleted and re-created
+    under the same path by two updates of one batch: from its next invocation
+    on the process reads the new store."""
+    CTX.clear()
+    CTX.update(ctx=ctx, d=ctx.int('d', -3, 3), v1=ctx.int('v1', 10, 19),
+               ts_swap=ctx.int('tss', 1, 2), swap_at=1 + ctx.choice('at', 2),
+               replaced=False)
+    v0 = ctx.int('v0', -9, 9)
+    below = ctx.flag('below')
+    obs = FixedObs()
+    processes = {'del': Swap({'role': 'delete'}), 'add': Swap({'role': 'add'})}
+    topology = {'del': {'loc1': ('loc1',)}, 'add': {'loc1': ('loc1',)}}
+    if below:
+        processes['h'] = {'obs': obs}
+        topology['h'] = {'obs': {'spot': ('..', 'loc1', 'a1', 's')}}
+    else:
+        processes['obs'] = obs
+        topology['obs'] = {'spot': ('loc1', 'a1', 's')}
+    e = Engine(processes=processes, topology=topology,
+               initial_state={'loc1': {'a1': {'s': {'x': v0}},
+                                       'a2': {'s': {'x': 1}}}},
+               display_info=False, emitter='null')
+    CTX['engine'] = e
+    e.update(ctx.int('T', 2, 5))
+
+
 def jobs(tier):
     q = tier == 'quick'
-    out = []
+    out = [dict(name='replace', part='replace', budget_s=100 if q else 600)]
     for flavor in ('none', 'flow'):
         for k in range(len(KINDS)):
             out.append(dict(name='%s-%s' % (flavor, KINDS[k]), flavor=flavor,
@@ -180,6 +268,8 @@ def jobs(tier):
 
 
 def body(ctx, cfg):
+    if cfg.get('part') == 'replace':
+        return part_replace(ctx, cfg)
     ts_a = ctx.int('tsa', 1, 2)
     ts_g = ctx.int('tsg', 1, 2)
     d = ctx.int('d', -3, 3)
